@@ -126,3 +126,15 @@ from .registry_k import MANIFEST_CHECKS_K, PROPS_K  # noqa: E402
 
 PROPS.update(PROPS_K)
 MANIFEST_CHECKS.update(MANIFEST_CHECKS_K)
+
+from .registry_t import MANIFEST_CHECKS_T, PROPS_T  # noqa: E402
+
+PROPS.update(PROPS_T)
+MANIFEST_CHECKS.update(MANIFEST_CHECKS_T)
+
+# C06 also rides on engine L: the invariant is evaluated on every module weight after freeze, deepcopy,
+# moves and loads into every kind of target (lifecycle batch, DESIGN section 5 C06)
+for _tier, _n in (("quick", 600), ("thorough", 20000)):
+    PROPS["C06"]["batches"][_tier] = list(PROPS["C06"]["batches"][_tier]) + [
+        {"name": "lifecycle", "engine": "L", "runs": _n, "cfg": {"faults": False, "profile": "C10"}, "faults": False}
+    ]
